@@ -28,9 +28,16 @@ def gen(seed, tier):
     pl = P.gen_plan(seed, PROFILE, PROP)
     if tier == "thorough" and seed % 2 == 0:
         pl["c02_mid_consults"] = True  # histories re-digested and re-evaluated at every consult, not only at boundaries
-    from .c12 import crossover_only
+    from .c12 import crossover_only, whole_population_generator
 
     crossover_only(pl, seed)
+    if whole_population_generator(pl, seed):
+        pl["c02_mid_consults"] = True  # a recorded generation must not change between the two phases of a step either
+    if seed % 10 == 3 and "levels" in pl:
+        from .. import objectives as _o
+        import random as _r
+
+        pl["objective"] = _o.gen_objective(_r.Random(seed), pl["dim"], pl["box"], pl["maximize"], ["clipint"])
     # a quarter of the multi-stack plans: every level has its own objective (coarse / fine models of one landscape)
     if "stacks" in pl and len(pl["stacks"]) > 1 and seed % 4 == 0:
         import copy
